@@ -510,7 +510,7 @@ def run(ctx):
             assert Fraction(float(d)) == d
     import time
     t0 = time.time()
-    iobs = C.run_impl(impl_fed, icases, ctx["rundir"], limit=8.0)
+    iobs = C.run_impl(impl_fed, icases, ctx["rundir"], limit=5.0)
     C.log("c18: fed implementation runs %.1fs (%d cases)" % (time.time() - t0, len(icases)))
     # ---- model in the Coq VM
     mobs = None
@@ -529,8 +529,10 @@ def run(ctx):
     for i, (c, o) in enumerate(zip(fed, iobs)):
         rp = dict(fed=dict(ops=c["ops"], draws=[str(d) for d in c["draws"]], tag=c["tag"]))
         if o.get("hung"):
-            rep.violation(dict(kind="hang", op=c["ops"][0][0], law=law_name(c["ops"][0])),
-                          "no result within 8 s for %s with prescribed draws" % "; ".join(op_text(x) for x in c["ops"]), rp)
+            laws = [law_name(x) for x in c["ops"]]
+            rep.violation(dict(kind="hang", law="Poisson" if "Poisson" in laws else laws[0]),
+                          "C18 fails: no result within 5 s (sampling loop does not end) for %s with prescribed draws %s" % (
+                              "; ".join(op_text(x) for x in c["ops"]), [str(d) for d in c["draws"][:3]]), rp)
             continue
         mvals, mposs = None, None
         if mobs is not None and i in mobs:
